@@ -13,7 +13,12 @@
                  R3: sid key tables inputs hints ciphertexts   (blobs)
                  GS: sid name scalar ax ay ainvx ainvy
                  ES: sid name ax ay (scalar...) (bit...)
-     kind 6: (6 (bit...))             -> ((byte...) (bit...)) bitsToBytesLittle, and bytesToBitsLittle of it *)
+     kind 6: (6 (bit...))             -> ((byte...) (bit...)) bitsToBytesLittle, and bytesToBitsLittle of it
+     kind 7: (7 curve (op...))        op history over a store of returned byte strings:
+                op = (0 vkind fields...) encode that value and keep the bytes | (1 j) decode slot j
+                vkind 1..5 as above, fields as in the decode output
+                -> (((class length)...) per Enc op, (decoded...) per Dec op), decoded = (0 fields...) | (1) | (2);
+                   point decompression answers are the points of the encoded Round2 values *)
 From Coq Require Import ZArith NArith List Bool.
 From Mpc Require Import Gen.Consts Base.Sx Base.Codec IO.Sha2pcCodec.
 Import ListNotations.
@@ -77,41 +82,112 @@ Definition consts_obs : sx :=
        SL (map (fun c => SL [SZ (curve_id c); ofLN (curve_name c); ofnat (byteLen c)]) all_curves);
        ofnat round3PayloadLen ].
 
+Definition fields_r1 (p : round1) : list sx := [ofN (r1_sid p); ofLN (r1_name p); ofN (r1_ax p); ofN (r1_ay p)].
+Definition fields_r2 (p : round2) : list sx :=
+  [ofN (r2_sid p); ofLN (r2_name p); ofLN (map fst (r2_choices p)); ofLN (map snd (r2_choices p))].
+Definition fields_r3 (p : round3) : list sx :=
+  [ofN (r3_sid p); ofN (bytes_blob (r3_key p));
+   ofN (bytes_blob (encodeLabelList (r3_tables p)));
+   ofN (bytes_blob (encodeLabelList (r3_inputs p)));
+   ofN (bytes_blob (encodeLabelList (unpairs (r3_hints p))));
+   ofN (bytes_blob (encodeLabelList (unpairs (r3_cts p))))].
+Definition fields_gs (s : gsession) : list sx :=
+  [ofN (gs_sid s); ofLN (gs_name s); ofN (gs_scalar s); ofN (gs_ax s); ofN (gs_ay s);
+   ofN (gs_ainvx s); ofN (gs_ainvy s)].
+Definition fields_es (s : esession) : list sx :=
+  [ofN (es_sid s); ofLN (es_name s); ofN (es_ax s); ofN (es_ay s); ofLN (es_scalars s); ofLB (es_bits s)].
+
+Definition fields_value (v : value) : list sx :=
+  match v with
+  | VR1 m => fields_r1 m | VR2 m => fields_r2 m | VR3 m => fields_r3 m
+  | VGS s => fields_gs s | VES s => fields_es s
+  end.
+
+(* ---- values from their fields (kind 7) *)
+Definition labels_of_blob (b : N) : list N :=
+  let bs := blob_bytes b in split_be 16 (length bs / 16) bs.
+
+Definition value_of_sx (k : Z) (f : list sx) : value :=
+  let g i := nth i f (SZ 0) in
+  if Z.eqb k 1 then VR1 (mkR1 (getN (g 0)) (getLN (g 1)) (getN (g 2)) (getN (g 3)))%nat
+  else if Z.eqb k 2 then VR2 (mkR2 (getN (g 0)) (getLN (g 1)) (combine (getLN (g 2)) (getLN (g 3))))%nat
+  else if Z.eqb k 3 then
+    VR3 (mkR3 (getN (g 0)) (blob_bytes (getN (g 1))) (labels_of_blob (getN (g 2))) (labels_of_blob (getN (g 3)))
+              (pairs (labels_of_blob (getN (g 4)))) (pairs (labels_of_blob (getN (g 5)))))%nat
+  else if Z.eqb k 4 then
+    VGS (mkGS (getN (g 0)) (getLN (g 1)) (getN (g 2)) (getN (g 3)) (getN (g 4)) (getN (g 5)) (getN (g 6)))%nat
+  else VES (mkES (getN (g 0)) (getLN (g 1)) (getN (g 2)) (getN (g 3)) (getLN (g 4)) (getLB (g 5)))%nat.
+
+Definition hop_of_sx (s : sx) : hop :=
+  if Z.eqb (getZ (nthx 0 s)) 0 then HEnc (value_of_sx (getZ (nthx 1 s)) (tl (tl (getL s))))
+  else HDec (getnat (nthx 1 s)).
+
+(* decompression answers for a history: the points of its Round2 values; a
+   miss answers Y = 0, which no curve point has *)
+Definition history_points (ops : list hop) : list (N * N) :=
+  flat_map (fun o => match o with HEnc (VR2 m) => r2_choices m | _ => [] end) ops.
+Definition points_lookup (pts : list (N * N)) (x : N) (odd : bool) : option (N * N) :=
+  match find (fun p => N.eqb (fst p) x && Bool.eqb (N.odd (snd p)) odd) pts with
+  | Some p => Some p
+  | None => Some (x, 0%N)
+  end.
+
+Definition res_value_obs (r : res value) : sx :=
+  match r with
+  | Ok v => SL (SZ 0 :: fields_value v)
+  | Err => SL [SZ 1]
+  | Panic => SL [SZ 2]
+  end.
+
+(* store and results in one pass (each value is encoded once); equal to
+   (history_store, run_history) of the model: history_both_ok below *)
+Fixpoint history_both (dec : curve -> N -> bool -> option (N * N)) (c : curve)
+         (store : list (vkind * res (list N))) (ops : list hop)
+  : list (vkind * res (list N)) * list (res value) :=
+  match ops with
+  | [] => (store, [])
+  | HEnc v :: t => history_both dec c (store ++ [(kind_of v, encode_value c v)]) t
+  | HDec j :: t => let '(st, rs) := history_both dec c store t in (st, decode_slot dec c store j :: rs)
+  end.
+
+Definition run_history_obs (c : curve) (ops : list hop) : sx :=
+  let dec := fun (_ : curve) => points_lookup (history_points ops) in
+  let '(st, rs) := history_both dec c [] ops in
+  SL [ SL (map (fun e => SL [SZ (res_class (snd e));
+                             ofnat (match snd e with Ok b => length b | _ => 0%nat end)]) st);
+       SL (map res_value_obs rs) ].
+
 Definition run_c18 (inp : sx) : sx :=
   let kind := getZ (nthx 0 inp) in
   if Z.eqb kind 0 then consts_obs
   else if Z.eqb kind 6 then
     let by_ := bitsToBytesLittle (getLB (nthx 1 inp)) in
     SL [ofLN by_; ofLB (bytesToBitsLittle by_)]
+  else if Z.eqb kind 7 then
+    run_history_obs (curve_of_Z (getZ (nthx 1 inp))) (map hop_of_sx (getL (nthx 2 inp)))
   else
     let c := curve_of_Z (getZ (nthx 1 inp)) in
     let data := payload_bytes (nthx 2 inp) in
     let tbl := getL (nthx 3 inp) in
     if Z.eqb kind 1 then
       decoded (DecodeRound1 c data)
-        (fun p => [ofN (r1_sid p); ofLN (r1_name p); ofN (r1_ax p); ofN (r1_ay p)])
+        fields_r1
         (EncodeRound1 c) data
     else if Z.eqb kind 2 then
       decoded (DecodeRound2 (fun _ => table_lookup tbl) c data)
-        (fun p => [ofN (r2_sid p); ofLN (r2_name p); ofLN (map fst (r2_choices p)); ofLN (map snd (r2_choices p))])
+        fields_r2
         (EncodeRound2 c) data
     else if Z.eqb kind 3 then
       decoded (DecodeRound3 data)
-        (fun p => [ofN (r3_sid p); ofN (bytes_blob (r3_key p));
-                   ofN (bytes_blob (encodeLabelList (r3_tables p)));
-                   ofN (bytes_blob (encodeLabelList (r3_inputs p)));
-                   ofN (bytes_blob (encodeLabelList (unpairs (r3_hints p))));
-                   ofN (bytes_blob (encodeLabelList (unpairs (r3_cts p))))])
+        fields_r3
         EncodeRound3 data
     else if Z.eqb kind 4 then
       decoded (DecodeGarblerSession c data)
-        (fun s => [ofN (gs_sid s); ofLN (gs_name s); ofN (gs_scalar s); ofN (gs_ax s); ofN (gs_ay s);
-                   ofN (gs_ainvx s); ofN (gs_ainvy s)])
+        fields_gs
         (EncodeGarblerSession c) data
     else if Z.eqb kind 5 then
       decoded (DecodeEvaluatorSession c data)
-        (fun s => [ofN (es_sid s); ofLN (es_name s); ofN (es_ax s); ofN (es_ay s);
-                   ofLN (es_scalars s); ofLB (es_bits s)])
+        fields_es
         (EncodeEvaluatorSession c) data
     else sx_err 9.
 
@@ -125,6 +201,15 @@ Lemma c18_consts_ok :
   N.of_nat evaluatorChoiceSignBytes = ((N.of_nat evaluatorCiphertextCount + 7) / 8)%N /\
   N.of_nat garbledTableByteLen = (N.of_nat garbledTableLabelCount * N.of_nat labelByteLen)%N.
 Proof. vm_compute. repeat split; reflexivity. Qed.
+
+Lemma history_both_ok dec c : forall ops store,
+  history_both dec c store ops = (history_store c store ops, run_history dec c store ops).
+Proof.
+  induction ops as [|[v|j] ops IH]; intros store; cbn [history_both history_store run_history].
+  - reflexivity.
+  - apply IH.
+  - rewrite IH. reflexivity.
+Qed.
 
 Lemma blob_example :
   blob_bytes 0x01000203ff%N = [0; 2; 3; 255]%N /\ bytes_blob [0; 2; 3; 255]%N = 0x01000203ff%N.
